@@ -14,6 +14,9 @@ PLUGINS = {
     "C03": "harness.plug_query:C03",
     "C04": "harness.plug_load:C04",
     "C05": "harness.plug_mutate:C05",
+    "C09": "harness.plug_derive:C09",
+    "C11": "harness.plug_derive:C11",
+    "C12": "harness.plug_derive:C12",
     "C13": "harness.plug_load:C13",
     "C06": "harness.plug_query:C06",
     "C07": "harness.plug_query:C07",
